@@ -16,6 +16,7 @@ equivalent chain before any rule runs; anything else is left as it is (the rules
     case P if guard:               <P> and guard (captured names in the guard stand for what they capture)
     case A(x=n) | (B() as n):      one arm per alternative, same body (alternatives that capture)
     match (e1, e2): case (P, Q):   <e1 matches P> and <e2 matches Q> (tuple display as subject, sequence patterns of its length)
+    match s: case [P, *rest, Q]:   isinstance(s, (list, tuple)) and len(s) >= 2 and <s[0] matches P> and <s[-1] matches Q>, rest = list(s[1:-1])
 
 The subject is evaluated once: a name or dotted name is used as it is, anything else is bound to a temporary first.
 """
@@ -56,6 +57,29 @@ def _cond(subj: ast.AST, pat: ast.AST, binds: list[ast.stmt]) -> ast.AST | None:
             if c is not None:
                 parts.append(c)
         return parts[0] if len(parts) == 1 else ast.BoolOp(op=ast.And(), values=parts)
+    if isinstance(pat, ast.MatchSequence) and not isinstance(subj, ast.Tuple):
+        # a sequence pattern on a named subject: a list / tuple of that length (at least that length with one *rest) whose
+        # elements match
+        stars = [i for i, p in enumerate(pat.patterns) if isinstance(p, ast.MatchStar)]
+        if len(stars) > 1:
+            raise _Unsupported("two starred sub-patterns")
+        k = len(pat.patterns) - len(stars)
+        parts3: list[ast.AST] = [
+            ast.Call(func=ast.Name(id="isinstance", ctx=ast.Load()), args=[s(), ast.Tuple(elts=[ast.Name(id="list", ctx=ast.Load()), ast.Name(id="tuple", ctx=ast.Load())], ctx=ast.Load())], keywords=[]),
+            ast.Compare(left=ast.Call(func=ast.Name(id="len", ctx=ast.Load()), args=[s()], keywords=[]), ops=[ast.GtE() if stars else ast.Eq()], comparators=[ast.Constant(value=k)]),
+        ]
+        for i, p in enumerate(pat.patterns):
+            if isinstance(p, ast.MatchStar):
+                if p.name is not None:
+                    lo, hi = i, len(pat.patterns) - 1 - i
+                    sl = ast.Slice(lower=ast.Constant(value=lo) if lo else None, upper=ast.UnaryOp(op=ast.USub(), operand=ast.Constant(value=hi)) if hi else None, step=None)
+                    binds.append(ast.Assign(targets=[ast.Name(id=p.name, ctx=ast.Store())], value=ast.Call(func=ast.Name(id="list", ctx=ast.Load()), args=[ast.Subscript(value=s(), slice=sl, ctx=ast.Load())], keywords=[])))
+                continue
+            idx: ast.AST = ast.Constant(value=i) if not stars or i < stars[0] else ast.UnaryOp(op=ast.USub(), operand=ast.Constant(value=len(pat.patterns) - i))
+            c = _cond(ast.Subscript(value=s(), slice=idx, ctx=ast.Load()), p, binds)
+            if c is not None:
+                parts3.append(c)
+        return ast.BoolOp(op=ast.And(), values=parts3)
     if isinstance(pat, ast.MatchSequence):
         if not isinstance(subj, ast.Tuple) or len(subj.elts) != len(pat.patterns) or any(isinstance(p, ast.MatchStar) for p in pat.patterns):
             raise _Unsupported("sequence pattern on a subject that is not a tuple display of that length")
